@@ -337,8 +337,18 @@ def _alg(b, name):
     if name == "pow-coef-exponent":
         return tv() ** b.pos(), (b.v,), "bad"
     if name == "math":
-        fn = rng.choice([ufl.sin, ufl.exp, ufl.tanh, ufl.atan, ufl.cos, ufl.erf])
-        return fn(tv()) * f(), (b.v,), "bad"
+        k = rng.randrange(18)
+        t = tv()
+        if k < 13:
+            fn = [ufl.sin, ufl.cos, ufl.tan, ufl.exp, ufl.ln, ufl.sqrt, ufl.sinh, ufl.cosh, ufl.tanh, ufl.asin, ufl.acos, ufl.atan, ufl.erf][k]
+            e = fn(t)
+        elif k == 13:
+            e = ufl.atan2(t, b.pos())
+        elif k == 14:
+            e = ufl.atan2(f(), t)
+        else:
+            e = [ufl.bessel_J, ufl.bessel_Y, ufl.bessel_I, ufl.bessel_K][k - 15](rng.choice([0, 1]), t)
+        return e * f(), (b.v,), "bad"
     if name == "math-linear-part":
         return (ufl.sin(tv()) + tv()) * f(), (b.v,), "bad"
     if name == "sign-abs":
@@ -390,7 +400,7 @@ def _alg(b, name):
     raise KeyError(name)
 
 
-ALG = ["div-by-coef", "div-by-arg", "arg-by-arg", "arg-by-itself", "pow-2", "pow-1", "pow-exponent", "pow-coef-exponent", "math",
+ALG = ["div-by-coef", "div-by-arg", "arg-by-arg", "arg-by-itself", "pow-2", "pow-1", "pow-exponent", "pow-coef-exponent", "math", "math", "math",
        "math-linear-part", "sign-abs", "minmax", "square", "square-hidden", "same-number-other-space", "sum-affine", "sum-arity-2-1",
        "sum-test-plus-trial", "sum-ok", "sum-bilinear-ok", "zero-times-arg", "zero-times-trial", "missing-trial", "extra-trial", "only-trial",
        "no-arguments", "neg-scale", "bilinear-plain", "trilinear"]
